@@ -931,7 +931,20 @@ func (w *world) update(t *rapid.T) {
 		nontrivial := boundaryPower || mut != "none" || fault != "none" || !strings.HasPrefix(kind, "forward") || c.kind != "now"
 		shape := fmt.Sprintf("%s|own%s|tr%s|%s|%s|%s|%s|%s|acc=%v", kind, bucket(a.HaveOwn, a.OwnDist), bucket(a.HaveTr, a.TrDist), mut, fault, c.kind,
 			a.V, strings.Join(a.Reasons, "+"), res.accepted)
-		w.r.Case(shape, nontrivial, func() interface{} { return entry })
+		cat := ""
+		switch {
+		case res.accepted && a.V == vAccept && a.HaveTr && a.TrDist == 0 && mut == "none":
+			cat = "accepted skipping update whose trusted-set signers hold exactly the minimal power above the trust level"
+		case !res.accepted && len(a.Reasons) == 1 && a.Reasons[0] == "own-power" && a.OwnDist == -1 && mut == "none" && fault == "none":
+			cat = "rejected only because the header's own signers are one power unit short of more than 2/3"
+		case res.accepted && strings.HasPrefix(kind, "backfill"):
+			cat = "accepted back-fill below the latest height (latest height must stay)"
+		case res.accepted && a.V == vAccept && c.kind == "trusted+TP-1ns":
+			cat = "accepted 1 ns before the trusted state leaves the trusting period (rejected 1 ns later)"
+		case !res.accepted && len(a.Reasons) == 1 && (mut != "none" || fault != "none"):
+			cat = "rejected for a single reason caused by one mutation / signature fault"
+		}
+		w.r.Case(shape, nontrivial, w.sample(cat, entry))
 		if i == commitIdx {
 			r := res
 			committed = &r
@@ -963,6 +976,37 @@ func (w *world) gaps(from hkey) []int64 {
 		}
 	}
 	return out
+}
+
+var (
+	sampleMu    sync.Mutex
+	sampleGiven = map[string]bool{}
+)
+
+// sample renders one evidence sample per category and test (so that the few samples kept in the
+// evidence file show different kinds of decisions); nil for everything else.
+func (w *world) sample(cat string, entry stepLog) func() interface{} {
+	if cat == "" {
+		return nil
+	}
+	key := w.r.Test + "|" + cat
+	sampleMu.Lock()
+	given := sampleGiven[key]
+	sampleMu.Unlock()
+	if given {
+		return nil
+	}
+	return func() interface{} {
+		sampleMu.Lock()
+		sampleGiven[key] = true
+		sampleMu.Unlock()
+		out := stepLog{"what": cat, "client": fmt.Sprintf("chain=%s trustLevel=%d/%d trustingPeriod=%s maxClockDrift=%s delay=%dns latest=%v stored=%v",
+			w.m.ChainID, w.m.TrustNum, w.m.TrustDen, w.m.TP, w.m.Drift, w.m.Delay, w.m.Latest, w.m.heights())}
+		for k, v := range entry {
+			out[k] = v
+		}
+		return out
+	}
 }
 
 func (w *world) labels(a assessment, res probeResult, kind, mut, fault, clock, trKind string) {
@@ -1118,7 +1162,14 @@ func (w *world) proof(t *rapid.T) {
 		w.r.Label("proof-height:" + qKind)
 		nontrivial := c.kind != "now" || qKind != "stored" || valKind != "true" || callKind != "same" || src != int64(q.H)
 		shape := fmt.Sprintf("proof|%s|other=%v|%s|%s|%s|%s|%s|acc=%v", qKind, src != int64(q.H), valKind, callKind, c.kind, v, why, err == nil)
-		w.r.Case(shape, nontrivial, func() interface{} { return entry })
+		cat := ""
+		switch {
+		case v == vReject && why == "delay-not-passed" && c.kind == "processed+delay-1ns" && proofOK(w.m.Cons[q].Root):
+			cat = "genuine proof refused 1 ns before the delay since processing has passed"
+		case v == vReject && why == "above-latest":
+			cat = "proof refused at a stored height above the latest height"
+		}
+		w.r.Case(shape, nontrivial, w.sample(cat, entry))
 		if c.kind == "now" {
 			w.log = append(w.log, entry)
 		}
